@@ -590,6 +590,18 @@ def _build_files(S, scratch, git, HarnessError):
     os.unlink(bpath)
     F["bitmap.dulwich"] = {"dir": dict(one, **{"pack/%s.bitmap" % n1: bm_d}), "targets": {"bitmap": "pack/%s.bitmap" % n1},
                            "base": "pack/" + n1, "names": [HEX(n) for n in pb.names]}
+    # crafted bitmaps: EWAH run-length bombs (a run word expands to running_len x 64 bits)
+    def ewah(bit_count, words):
+        return struct.pack(">II", bit_count, len(words)) + b"".join(struct.pack(">Q", w) for w in words) + struct.pack(">I", 0)
+
+    def bitmap_file(type_bitmaps):
+        return b"BITM" + struct.pack(">HHI", 1, 1, 0) + p1[-20:] + b"".join(type_bitmaps)
+
+    empty = ewah(0, [])
+    for name, bits, run_words in (("ewah-run-of-2^32-bits", 0xFFFFFFFF, (1 << 26) - 1), ("ewah-run-of-2^24-bits", 1 << 24, 1 << 18)):
+        rlw = 1 | (run_words << 1)  # running bit 1, running_len, no literal words
+        F["bitmap.atk:" + name] = {"dir": dict(one, **{"pack/%s.bitmap" % n1: bitmap_file([ewah(bits, [rlw]), empty, empty, empty])}),
+                                   "targets": {}, "base": "pack/" + n1, "names": [HEX(n) for n in pb.names]}
     # git: repack everything into one pack with a bitmap (git chooses its own object order / pack name)
     git(["-c", "pack.writeBitmapHashCache=true", "repack", "-a", "-d", "-b", "-q"], cwd=brepo)
     gfiles = {}
